@@ -37,6 +37,9 @@ TMP = None
 _CLEAN = re.compile(r"[^\w一-鿿\- ]")
 
 
+NESTED = [0]
+
+
 def setup(ctx):
     global TMP
     TMP = tempfile.mkdtemp(prefix="c10_")
@@ -129,7 +132,26 @@ def eval_case(ctx, case):
     if func:
         from mv import slugfuncs
 
-        kw["myst_heading_slug_func"] = getattr(slugfuncs, func["name"]) if func["how"] == "callable" else "mv.slugfuncs." + func["name"]
+        if func["how"] == "nested":
+            # a function in a sub-module of a package that nothing has imported yet: 'pkg.helpers.slugs.<name>'
+            import sys
+
+            NESTED[0] += 1
+            pkg = f"c10pkg{os.getpid()}_{NESTED[0]}"
+            os.makedirs(os.path.join(TMP, pkg, "helpers"))
+            for rel_ in ("__init__.py", "helpers/__init__.py"):
+                open(os.path.join(TMP, pkg, rel_), "w").close()
+            with open(os.path.join(TMP, pkg, "helpers", "slugs.py"), "w") as f:
+                f.write("from mv.slugfuncs import *  # noqa\n")
+            if TMP not in sys.path:
+                sys.path.insert(0, TMP)
+            import importlib
+
+            importlib.invalidate_caches()
+            kw["myst_heading_slug_func"] = f"{pkg}.helpers.slugs." + func["name"]
+            ctx.count("slug_func_from_nested_unimported_module")
+        else:
+            kw["myst_heading_slug_func"] = getattr(slugfuncs, func["name"]) if func["how"] == "callable" else "mv.slugfuncs." + func["name"]
     src = os.path.join(TMP, "doc.md")
     try:
         doc, wtext = drive.parse_pre(text, source_path=src, **kw)
@@ -321,7 +343,7 @@ def run_shard(ctx):
             heads.append([lvl, R.choice(pool) if R.random() < 0.7 else rand_title(R), R.choice(["top", "top", "top", "quote", "list", "setext"])])
         case = {"kind": "rand", "heads": heads, "depth": R.choice([0, 1, 2, 2, 3, 4, 5, 6, 7])}
         if R.random() < 0.2:
-            case["func"] = {"name": R.choice(["shout", "constant", "boom", "boom_some"]), "how": R.choice(["callable", "dotted"])}
+            case["func"] = {"name": R.choice(["shout", "constant", "boom", "boom_some"]), "how": R.choice(["callable", "dotted", "nested"])}
         eval_case(ctx, case)
         ctx.case(("rand", repr(case)), sum(1 for h in heads if h[0] <= case["depth"]) >= 2)
         if i == 0:
